@@ -301,6 +301,29 @@ class EnvHandle(object):
         except Exception as e:
             return "ERR:" + type(e).__name__
 
+    def chains(self):
+        """What each futures chain of the action space resolves to right now."""
+        out = {}
+        for c, s in zip(self.contracts, self.spec["contracts"]):
+            if s["kind"] != "chain":
+                continue
+            info = {}
+            try:
+                info["lead"] = c.lead_contract().symbol
+            except Exception as e:
+                info["lead"] = "ERR:" + type(e).__name__
+            try:
+                info["lead_now"] = c.lead_contract(self.env.now()).symbol
+            except Exception as e:
+                info["lead_now"] = "ERR:" + type(e).__name__
+            try:
+                b = self.env.exchange[c]
+                info["book"] = (b.bid_price, b.ask_price)
+            except Exception as e:
+                info["book"] = "ERR:" + type(e).__name__
+            out[s["name"]] = info
+        return out
+
     def nlv_default(self):
         """Valuation with the raising default: ('value', x) or ('raised', type)."""
         try:
@@ -394,7 +417,7 @@ class EpiSim(object):
         def wrapped(rebalancing, _orig=orig, _h=h):
             rec = {"seq": sink.next_seq(), "kind": "EXEC", "env": _h.tag, "time": rebalancing.time,
                    "books": _h.books(), "env_now": _h.env.now(), "clock": AbstractContract.now,
-                   "hold_before": _h.holdings()[0], "n_rec_before": len(broker.track_record)}
+                   "hold_before": _h.holdings()[0], "n_rec_before": len(broker.track_record), "chains": _h.chains()}
             sink.records.append(rec)
             try:
                 return _orig(rebalancing)
@@ -461,7 +484,7 @@ class EpiSim(object):
                     "info_keys": sorted(info.keys()) if isinstance(info, dict) else None,
                     "now": h.env.now(), "clock": AbstractContract.now, "hold": hq, "margins": hm, "nlv": h.nlv(),
                     "n_rec": len(h.env.broker.track_record), "books": h.books(), "env_done": bool(h.env._done),
-                    "nlv_default": h.nlv_default(),
+                    "nlv_default": h.nlv_default(), "chains": h.chains(),
                     "end_seq": self.sink.next_seq()})
         if isinstance(info, dict) and "_rebalancing" in info:
             rec["info_rebalancing_time"] = info["_rebalancing"].time
